@@ -316,7 +316,7 @@ def _crashes_llvm14(b):
 
 def reference_corpus(rng):
     bl = []
-    for w in range(0, 65536, 7):
+    for w in range(0, 65536, 16):
         b = [w & 255, w >> 8]
         if _is32_guess(w):
             x = rng.choice([0, 1, 0x1234, 0x8000, 0xFFFF, rng.randrange(65536)])
@@ -331,8 +331,8 @@ def llvm_crosscheck(ctx, byte_lists, rng):
         ctx.note("llvm-mc-14 not installed: Avr.tla not cross-checked")
         return
     emitted = sorted({tuple(b) for b in byte_lists if len(b) in (2, 4)})
-    if len(emitted) > 6000:     # the reference disassembler is slow to start and to warn: a seeded sample is enough here
-        emitted = rng.sample(emitted, 6000)
+    if len(emitted) > 3000:     # the reference disassembler is slow to start and to warn: a seeded sample is enough here
+        emitted = rng.sample(emitted, 3000)
     uniq = sorted(set(emitted) | {tuple(b) for b in reference_corpus(rng)})
     skipped = [b for b in uniq if _crashes_llvm14(b)]
     uniq = [b for b in uniq if not _crashes_llvm14(b)]
@@ -353,6 +353,8 @@ def llvm_crosscheck(ctx, byte_lists, rng):
         if t is None:
             continue
         mn, ops = t
+        if mn == "rcall" and [o[0] for o in ops] == ["i"]:
+            ops = [["x", 0, "raw field"]]      # LLVM 14 prints the raw 12-bit field of rcall, not a displacement: not comparable
         recs.append({"t": "enc", "isa": ISA, "mn": mn, "ops": ops, "pc": 0, "out": {"ok": True, "exc": "", "bytes": list(b)},
                      "text": text, "key": bytes(b).hex()})
     verdicts = isagen.judge(ctx, "Avr_Eval", recs, ["RefInvalid", "SyntaxKnown", "RefAgrees"],
@@ -374,8 +376,8 @@ def llvm_crosscheck(ctx, byte_lists, rng):
     for h, mine_, ref in suspects[:20]:
         print("SPEC-SUSPECT property=%s case=avr-bytes:%s specification %s llvm-mc=%r" % (ctx.prop, h, mine_, ref))
     ctx.note("spec validation (avr): Avr.Decode agrees with llvm-mc-14 --triple=avr on %d of %d byte strings (%d printed in a "
-             "syntax outside the compared one: LLVM 14's experimental AVR disassembler prints '<unknown>' for branch targets "
-             "and numbers for pointer registers; %d differ; %d defined here / invalid there: it does not know ld / st through X, "
+             "syntax outside the compared one: LLVM 14's experimental AVR disassembler prints '<unknown>' for branch targets, "
+             "the raw field for rcall and numbers for pointer registers; %d differ; %d defined here / invalid there: it does not know ld / st through X, "
              "-Y, -Z and others; %d byte strings not given to it because it crashes on ldd / std with a displacement, %d more "
              "crashed)" % (agree, len(recs), unknown, differ, invdiff, len(skipped), crashed))
     ctx.cov.setdefault("spec_validation_small_isas", {})[ISA] = {
